@@ -256,6 +256,30 @@ def run(ck):
             oracle(okc == (dim_of[a] == dim_of[b]), "config:" + label, f"conversion success differs from dimensional equality under configuration {label}", {"a": a, "b": b})
             oracle(u2.Quantity(one, a).is_compatible_with(u2.Unit(b)) == (dim_of[a] == dim_of[b]), "config-pred:" + label, "is_compatible_with differs under configuration", {"a": a, "b": b})
             ck.case(key=("config", label, a, b), nontrivial=a != b)
+        # the relation is preserved by powers and products with RATIONAL exponents, in this configuration too:
+        # (u**q)**k ~ u**(q*k) and u**q1 * u**q2 ~ u**(q1+q2)  (exponents given as Fractions, as a user may)
+        if label in ("float", "casei", "autoreduce", "diskcache"):
+            qs = [F(1, 10), F(1, 5), F(3, 10), F(1, 3), F(2, 3), F(1, 7), F(7, 10), F(1, 2), F(-1, 10), F(3, 2)]
+            for _ in range(600 if thorough else 150):
+                a = rng.choice(mult)
+                if not dim_of[a]:
+                    continue
+                q1, q2, k = rng.choice(qs), rng.choice(qs), rng.choice([2, 3, 7, -3])
+                ua = u2.Unit(a)
+                rp = {"unit": a, "q1": str(q1), "q2": str(q2), "k": k, "configuration": label}
+                x, y = (ua ** q1) ** k, ua ** (q1 * k)
+                oracle(x.is_compatible_with(y) and u2.Quantity(one, x).check(y.dimensionality), "config-pow:" + label,
+                       f"({a}**{q1})**{k} is not compatible with {a}**{q1 * k} under configuration {label}", rp)
+                try:
+                    u2.convert(one, x, y)
+                    okc = True
+                except pint.errors.DimensionalityError:
+                    okc = False
+                oracle(okc, "config-pow-convert:" + label, f"({a}**{q1})**{k} does not convert to {a}**{q1 * k} under configuration {label}", rp)
+                if q1 + q2 != 0:
+                    x2, y2 = (ua ** q1) * (ua ** q2), ua ** (q1 + q2)
+                    oracle(x2.is_compatible_with(y2), "config-mul:" + label, f"{a}**{q1} * {a}**{q2} is not compatible with {a}**{q1 + q2} under configuration {label}", rp)
+                ck.case(key=("config-pow", label, a, str(q1), k))
         ck.count("config:" + label, 300)
     shutil.rmtree(cdir, ignore_errors=True)
 
